@@ -280,4 +280,866 @@ theorem IdxInv.registerComponent {w w' : World} (h : IdxInv w) {k : CompKind} {n
   obtain ⟨_, _, _, ht, he, _⟩ := registerComponent_ok hr
   exact h.congr he ht
 
+/-! ## (2b) `createArchetype` -/
+
+theorem getElem?_concat_cases {α : Type} {l : List α} {x y : α} {i : Nat}
+    (h : (l ++ [x])[i]? = some y) : (i < l.length ∧ l[i]? = some y) ∨ (i = l.length ∧ y = x) := by
+  rcases Nat.lt_or_ge i l.length with hlt | hge
+  · rw [List.getElem?_append_left hlt] at h; exact Or.inl ⟨hlt, h⟩
+  · rw [List.getElem?_append_right hge] at h
+    obtain ⟨h0, hy⟩ := getElem?_singleton_some h
+    exact Or.inr ⟨by omega, hy⟩
+
+theorem foldl_keep {α β : Type} (f : World → α → World) (p : World → β)
+    (hf : ∀ (w : World) (x : α), p (f w x) = p w) :
+    ∀ (l : List α) (w : World), p (l.foldl f w) = p w
+  | [], _ => rfl
+  | x :: l, w => by rw [List.foldl_cons, foldl_keep f p hf l, hf]
+
+namespace World
+
+/-- the archetype `createArchetype mask` appends -/
+def newArch (w : World) (mask : Mask) : Archetype :=
+  Archetype.new w.archetypes.length mask (mask.toList w.kinds.length)
+    ((mask.toList w.kinds.length).map fun c => (w.kinds.getD c {}).isRel)
+    ((mask.toList w.kinds.length).map fun c => (w.kinds.getD c {}).zst) []
+
+/-- one step of the `componentIndex` / registry update loop of `createArchetype` -/
+def caStep (id : Nat) (w : World) (c : Comp) : World :=
+  { w with componentIndex := w.componentIndex.modify c (· ++ [id])
+           archCount := w.archCount.modify c (· + 1)
+           version := w.version + 1 }
+
+/-- the state `createArchetype mask` produces -/
+def createArchetypeW (w : World) (mask : Mask) : World :=
+  let w2 := (mask.toList w.kinds.length).foldl (caStep w.archetypes.length)
+    { w with archetypes := w.archetypes ++ [newArch w mask] }
+  if (newArch w mask).hasRelations then
+    { w2 with relationArchetypes := w2.relationArchetypes ++ [w.archetypes.length] }
+  else w2
+
+theorem createArchetype_eq (mask : Mask) (w : World) :
+    createArchetype mask w = .ok w.archetypes.length (createArchetypeW w mask) := rfl
+
+theorem createArchetypeW_proj {β : Type} (p : World → β)
+    (h1 : ∀ (w : World) (id : Nat) (c : Comp), p (caStep id w c) = p w)
+    (h2 : ∀ (w : World) (l : List Nat), p { w with relationArchetypes := l } = p w)
+    (w : World) (mask : Mask) :
+    p (createArchetypeW w mask) = p { w with archetypes := w.archetypes ++ [newArch w mask] } := by
+  unfold createArchetypeW
+  simp only
+  split
+  · rw [h2]; exact foldl_keep _ p (fun w c => h1 w _ c) _ _
+  · exact foldl_keep _ p (fun w c => h1 w _ c) _ _
+
+/-- `createArchetype` always succeeds, appends `newArch` and touches neither tables, registry,
+    entity index, pool nor cache (it updates `componentIndex`, `archCount`, `version`,
+    `relationArchetypes`). -/
+theorem createArchetype_ok (mask : Mask) (w : World) :
+    ∃ (w' : World), createArchetype mask w = .ok w.archetypes.length w' ∧
+      w'.archetypes = w.archetypes ++ [newArch w mask] ∧ w'.tables = w.tables ∧
+      w'.kinds = w.kinds ∧ w'.entities = w.entities ∧ w'.pool = w.pool ∧ w'.cache = w.cache :=
+  ⟨_, createArchetype_eq mask w,
+    createArchetypeW_proj (·.archetypes) (fun _ _ _ => rfl) (fun _ _ => rfl) w mask,
+    createArchetypeW_proj (·.tables) (fun _ _ _ => rfl) (fun _ _ => rfl) w mask,
+    createArchetypeW_proj (·.kinds) (fun _ _ _ => rfl) (fun _ _ => rfl) w mask,
+    createArchetypeW_proj (·.entities) (fun _ _ _ => rfl) (fun _ _ => rfl) w mask,
+    createArchetypeW_proj (·.pool) (fun _ _ _ => rfl) (fun _ _ => rfl) w mask,
+    createArchetypeW_proj (·.cache) (fun _ _ _ => rfl) (fun _ _ => rfl) w mask⟩
+
+theorem findArch_none {w : World} {mask : Mask} (h : w.findArch mask = none) :
+    ∀ (a : Nat) (A : Archetype), w.archetypes[a]? = some A → A.mask ≠ mask := by
+  intro a A hA he
+  unfold findArch at h
+  rw [Option.map_eq_none_iff, List.find?_eq_none] at h
+  have := h A (List.mem_of_getElem? hA)
+  simp [he] at this
+
+theorem newArch_hasRelations_numRel (w : World) (mask : Mask) :
+    (newArch w mask).tables.tables = [] ∧ (newArch w mask).freeTables = [] ∧
+    (newArch w mask).mask = mask ∧ (newArch w mask).id = w.archetypes.length := ⟨rfl, rfl, rfl, rfl⟩
+
+end World
+
+theorem getD_map_of_get {α β : Type} (l : List α) (f : α → β) (d : β) {i : Nat} {x : α}
+    (h : l[i]? = some x) : (l.map f).getD i d = f x := by
+  simp [List.getD_eq_getElem?_getD, List.getElem?_map, h]
+
+/-- appending the archetype of a new mask (all of whose bits are registered) keeps `SInvMid` -/
+theorem SInvMid.append_arch {w w' : World} (h : SInvMid w) (mask : Mask)
+    (hnone : w.findArch mask = none) (hreg : ∀ (c : Nat), mask.get c = true → c < w.kinds.length)
+    (ha : w'.archetypes = w.archetypes ++ [newArch w mask]) (ht : w'.tables = w.tables)
+    (hk : w'.kinds = w.kinds) : SInvMid w' := by
+  have harch : ∀ a, a < w.archetypes.length → w'.arch a = w.arch a := by
+    intro a hlt
+    simp only [arch, ha, List.getD_eq_getElem?_getD, List.getElem?_append_left hlt]
+  have htbl : ∀ t, w'.tbl t = w.tbl t := fun t => by simp only [tbl, ht]
+  have hold : ∀ {a : Nat} {A : Archetype}, w.archetypes[a]? = some A → w'.archetypes[a]? = some A := by
+    intro a A hA
+    rw [ha, List.getElem?_append_left (alt_of_get hA)]; exact hA
+  have hne := findArch_none hnone
+  refine ⟨?_, ?_, ?_, ?_, ?_, ?_, ?_, ?_, ?_, ?_, ?_, ?_⟩
+  · intro a A hA; rw [ha] at hA
+    rcases getElem?_concat_cases hA with ⟨_, h1⟩ | ⟨rfl, rfl⟩
+    · exact h.archId a A h1
+    · rfl
+  · intro a b A B hA hB hm; rw [ha] at hA hB
+    rcases getElem?_concat_cases hA with ⟨_, h1⟩ | ⟨rfl, rfl⟩
+    · rcases getElem?_concat_cases hB with ⟨_, h2⟩ | ⟨rfl, rfl⟩
+      · exact h.maskUniq a b A B h1 h2 hm
+      · exact absurd hm (hne a A h1)
+    · rcases getElem?_concat_cases hB with ⟨_, h2⟩ | ⟨rfl, rfl⟩
+      · exact absurd hm.symm (hne b B h2)
+      · rfl
+  · intro a A hA c hc; rw [ha] at hA; rw [hk]
+    rcases getElem?_concat_cases hA with ⟨_, h1⟩ | ⟨rfl, rfl⟩
+    · exact h.maskReg a A h1 c hc
+    · exact hreg c hc
+  · intro a A hA; rw [ha] at hA; rw [hk]
+    rcases getElem?_concat_cases hA with ⟨_, h1⟩ | ⟨rfl, rfl⟩
+    · exact h.comps a A h1
+    · exact ⟨rfl, by simp [newArch, Archetype.new], by simp [newArch, Archetype.new]⟩
+  · intro a A i c hA hc; rw [ha] at hA; rw [hk]
+    rcases getElem?_concat_cases hA with ⟨_, h1⟩ | ⟨rfl, rfl⟩
+    · exact h.kindsOf a A i c h1 hc
+    · exact ⟨getD_map_of_get _ _ _ hc, getD_map_of_get _ _ _ hc⟩
+  · intro t T hT; rw [ht] at hT
+    obtain ⟨A, h1, h2⟩ := h.tblArch t T hT
+    exact ⟨A, hold h1, h2⟩
+  · rw [ht]; exact h.relCols
+  · intro t T hT; rw [ht] at hT
+    obtain ⟨A, h1, _⟩ := h.tblArch t T hT
+    rw [harch _ (alt_of_get h1)]; exact h.member t T hT
+  · intro a A t hA hmem; rw [ha] at hA; rw [ht]
+    rcases getElem?_concat_cases hA with ⟨_, h1⟩ | ⟨rfl, rfl⟩
+    · exact h.owned a A t h1 hmem
+    · rcases hmem with hm | hm <;> simp [newArch, Archetype.new, TableIDs.ofList] at hm
+  · intro a A hA; rw [ha] at hA
+    rcases getElem?_concat_cases hA with ⟨_, h1⟩ | ⟨rfl, rfl⟩
+    · exact h.astruct a A h1
+    · exact Archetype.struct_new _ _ _ _ _ (by simp)
+  · intro a A hA hr; rw [ha] at hA
+    rcases getElem?_concat_cases hA with ⟨_, h1⟩ | ⟨rfl, rfl⟩
+    · exact h.nonRelLe a A h1 hr
+    · exact ⟨by simp [newArch, Archetype.new, TableIDs.ofList], rfl⟩
+  · obtain ⟨h0, h1, h2⟩ := h.root
+    obtain ⟨A, hA, _⟩ := h.tblArch 0 _ (get_of_lt h0)
+    rw [h1] at hA
+    rw [ht, htbl, harch 0 (alt_of_get hA)]; exact ⟨h0, h1, h2⟩
+
+/-- **2b** `createArchetype mask` for a mask that has no archetype yet and whose bits are all
+    registered components: succeeds with the next archetype ID; the new archetype has the mask
+    and no table yet, so the world is `SInvMid` with every OTHER archetype settled; tables,
+    registry, entity index and pool are unchanged. -/
+theorem SInv.createArchetype {w : World} (h : SInv w) (mask : Mask)
+    (hnone : w.findArch mask = none) (hreg : ∀ (c : Nat), mask.get c = true → c < w.kinds.length) :
+    ∃ (w' : World), World.createArchetype mask w = .ok w.archetypes.length w' ∧
+      SInvMid w' ∧ (∀ (a : Nat), a ≠ w.archetypes.length → SettledAt w' a) ∧
+      w'.archetypes = w.archetypes ++ [newArch w mask] ∧
+      (w'.arch w.archetypes.length).mask = mask ∧
+      (w'.arch w.archetypes.length).tables.tables = [] ∧
+      (w'.arch w.archetypes.length).freeTables = [] ∧
+      w'.tables = w.tables ∧ w'.kinds = w.kinds ∧ w'.entities = w.entities ∧ w'.pool = w.pool ∧
+      w'.cache = w.cache := by
+  obtain ⟨w', hok, ha, ht, hk, he, hp, hc⟩ := createArchetype_ok mask w
+  have hnew : w'.arch w.archetypes.length = newArch w mask := by
+    apply arch_of_get; rw [ha]; exact List.getElem?_concat_length
+  refine ⟨w', hok, h.toSInvMid.append_arch mask hnone hreg ha ht hk, ?_, ha, ?_, ?_, ?_, ht, hk, he, hp, hc⟩
+  · intro a hne A hA hr
+    rw [ha] at hA
+    rcases getElem?_concat_cases hA with ⟨_, h1⟩ | ⟨h1, _⟩
+    · exact h.settled a A h1 hr
+    · exact absurd h1 hne
+  · rw [hnew]; rfl
+  · rw [hnew]; rfl
+  · rw [hnew]; rfl
+
+theorem IdxInv.createArchetype {w w' : World} (h : IdxInv w) {mask : Mask} {a : Nat}
+    (hr : World.createArchetype mask w = .ok a w') : IdxInv w' := by
+  obtain ⟨w1, hok, _, ht, _, he, _⟩ := createArchetype_ok mask w
+  rw [hok] at hr
+  injection hr with _ h2
+  subst h2
+  exact h.congr he ht
+
+/-! ## (2d) `createTable`: decomposition into checks, storage part, cache part -/
+
+namespace World
+
+/-- `targets[idx] = rel.target` for all given relations -/
+def ctTargets (A : Archetype) (rels : List RelID) : List Ent :=
+  rels.foldl (fun (ts : List Ent) r =>
+    match A.colIdx r.comp with
+    | some i => ts.set i r.target
+    | none => ts) (List.replicate A.comps.length Ent.zero)
+
+/-- the per-relation check loop body of `createTable` -/
+def relCheck (r : RelID) : W Unit :=
+  M.bind (checkRelationComponent r.comp) fun _ => checkRelationTarget r.target
+
+/-- what the check loop of `createTable` demands: relation components, targets alive or zero -/
+def RelsValid (w : World) (rels : List RelID) : Prop :=
+  ∀ (r : RelID), r ∈ rels → w.isRelComp r.comp = true ∧ (r.target.isZero = true ∨ w.alive r.target = true)
+
+instance (w : World) (rels : List RelID) : Decidable (RelsValid w rels) := by
+  unfold RelsValid; exact inferInstance
+
+theorem relCheck_cases (r : RelID) (w : World) :
+    (w.isRelComp r.comp = true ∧ (r.target.isZero = true ∨ w.alive r.target = true) ∧
+      relCheck r w = .ok () w) ∨
+    (¬ (w.isRelComp r.comp = true ∧ (r.target.isZero = true ∨ w.alive r.target = true)) ∧
+      ∃ (k : PanicKind), relCheck r w = .panic k w) := by
+  unfold relCheck checkRelationComponent checkRelationTarget M.bind
+  cases h1 : w.isRelComp r.comp
+  · exact Or.inr ⟨by simp [h1], .notRelation, by simp [h1]⟩
+  · cases h2 : r.target.isZero
+    · cases h3 : w.alive r.target
+      · exact Or.inr ⟨by simp [h2, h3], .deadTarget, by simp [h1, h2, h3]⟩
+      · exact Or.inl ⟨rfl, Or.inr rfl, by simp [h1, h2, h3]⟩
+    · exact Or.inl ⟨rfl, Or.inl rfl, by simp [h1, h2]⟩
+
+/-- the check loop never changes the state; it succeeds exactly when all relations are valid -/
+theorem relChecks_cases (rels : List RelID) (w : World) :
+    (RelsValid w rels ∧ M.forM' rels relCheck w = .ok () w) ∨
+    (¬ RelsValid w rels ∧ ∃ (k : PanicKind), M.forM' rels relCheck w = .panic k w) := by
+  induction rels with
+  | nil => exact Or.inl ⟨(by intro r hr; cases hr), rfl⟩
+  | cons r rest ih =>
+    rcases relCheck_cases r w with ⟨h1, h2, h3⟩ | ⟨h1, k, h3⟩
+    · rcases ih with ⟨h4, h5⟩ | ⟨h4, k, h5⟩
+      · refine Or.inl ⟨?_, ?_⟩
+        · intro r' hr'
+          rcases List.mem_cons.1 hr' with rfl | hm
+          · exact ⟨h1, h2⟩
+          · exact h4 r' hm
+        · simp only [M.forM', bind, M.bind, h3, h5]
+      · refine Or.inr ⟨fun hv => h4 fun r' hr' => hv r' (List.mem_cons_of_mem _ hr'), k, ?_⟩
+        simp only [M.forM', bind, M.bind, h3, h5]
+    · refine Or.inr ⟨fun hv => h1 (hv r List.mem_cons_self), k, ?_⟩
+      simp only [M.forM', bind, M.bind, h3]
+
+/-- the storage part of `createTable` (everything between the checks and `cache.addTable`):
+    the new world and the table ID -/
+def createTableS (w : World) (a : Nat) (rels : List RelID) : World × Nat :=
+  match (w.arch a).getFreeTable with
+  | some (A', t) =>
+    (((w.setArch a A').modTbl t fun T => T.recycle (ctTargets (w.arch a) rels) rels).modArch a
+      fun A => A.addTable t (ctTargets (w.arch a) rels), t)
+  | none =>
+    (({ w with tables := w.tables ++
+        [Table.new w.tables.length a (w.arch a).comps (w.arch a).isRel (w.arch a).zst
+          (if (w.arch a).hasRelations then w.initCapRel else w.initCap)
+          (ctTargets (w.arch a) rels) rels] } : World).modArch a
+      fun A => A.addTable w.tables.length (ctTargets (w.arch a) rels), w.tables.length)
+
+theorem createTableS_none {w : World} {a : Nat} {rels : List RelID}
+    (h : (w.arch a).getFreeTable = none) :
+    createTableS w a rels =
+      (({ w with tables := w.tables ++
+        [Table.new w.tables.length a (w.arch a).comps (w.arch a).isRel (w.arch a).zst
+          (if (w.arch a).hasRelations then w.initCapRel else w.initCap)
+          (ctTargets (w.arch a) rels) rels] } : World).modArch a
+      fun A => A.addTable w.tables.length (ctTargets (w.arch a) rels), w.tables.length) := by
+  simp only [createTableS, h]
+
+theorem createTableS_some {w : World} {a : Nat} {rels : List RelID} {A' : Archetype} {t : Nat}
+    (h : (w.arch a).getFreeTable = some (A', t)) :
+    createTableS w a rels =
+      (((w.setArch a A').modTbl t fun T => T.recycle (ctTargets (w.arch a) rels) rels).modArch a
+        fun A => A.addTable t (ctTargets (w.arch a) rels), t) := by
+  simp only [createTableS, h]
+
+/-- the panic class the check loop ends with (when it does) -/
+def relPanic (w : World) (rels : List RelID) : PanicKind :=
+  match M.forM' rels relCheck w with
+  | .panic k _ => k
+  | .ok _ _ => .other
+
+/-- the cache part of `createTable` -/
+def ctFinish (p : World × Nat) : Res World Nat :=
+  match p.1.cacheAddTable (p.1.tbl p.2) with
+  | none => .panic .runtime p.1
+  | some w' => .ok p.2 w'
+
+theorem ct_tail (X : World) (n : Nat) :
+    (match X.cacheAddTable (X.tbl n) with
+     | none => (M.panic PanicKind.runtime : W Unit).bind fun _ => (M.pure n : W Nat)
+     | some w' => (M.set w').bind fun _ => M.pure n) X = ctFinish (X, n) := by
+  unfold ctFinish
+  cases X.cacheAddTable (X.tbl n) <;> rfl
+
+/-- `createTable` = argument checks; relation checks; storage part; cache part. -/
+theorem createTable_eq (a : Nat) (rels : List RelID) (w : World) :
+    createTable a rels w =
+      if rels.length < (w.arch a).numRel then .panic .relUnspecified w
+      else if (rels.all fun r => ((w.arch a).colIdx r.comp).isSome) = false then .panic .runtime w
+      else if RelsValid w rels then ctFinish (createTableS w a rels)
+      else .panic (relPanic w rels) w := by
+  unfold createTable
+  simp only [bind, M.bind, M.get, M.assert, pure]
+  by_cases h1 : rels.length < (w.arch a).numRel
+  · simp [h1]
+  · simp only [h1, decide_false, Bool.not_false, if_true, if_false]
+    cases h2 : (rels.all fun r => ((w.arch a).colIdx r.comp).isSome)
+    · simp
+    · simp only [if_true, Bool.true_eq_false, if_false]
+      rcases relChecks_cases rels w with ⟨h3, h4⟩ | ⟨h3, k, h4⟩
+      · rw [if_pos h3]
+        have h4' : M.forM' rels (fun r => M.bind (checkRelationComponent r.comp) fun _ =>
+            checkRelationTarget r.target) w = .ok () w := h4
+        rw [h4']
+        cases hf : (w.arch a).getFreeTable with
+        | none =>
+          rw [createTableS_none hf]
+          simp only [hf, M.set, M.bind, M.pure, M.modify, M.get]
+          exact ct_tail _ _
+        | some p =>
+          obtain ⟨A', t⟩ := p
+          rw [createTableS_some hf]
+          simp only [hf, M.set, M.bind, M.pure, M.modify, M.get]
+          exact ct_tail _ _
+      · rw [if_neg h3]
+        have h4' : M.forM' rels (fun r => M.bind (checkRelationComponent r.comp) fun _ =>
+            checkRelationTarget r.target) w = .panic k w := h4
+        rw [h4']; simp only [relPanic, h4]
+
+/-- on success: the arguments passed all checks and the result is the storage part followed by
+    the cache part -/
+theorem createTable_ok {a : Nat} {rels : List RelID} {w w' : World} {t : Nat}
+    (h : createTable a rels w = .ok t w') :
+    (w.arch a).numRel ≤ rels.length ∧ (∀ (r : RelID), r ∈ rels → ((w.arch a).colIdx r.comp).isSome = true) ∧
+    RelsValid w rels ∧ t = (createTableS w a rels).2 ∧
+    (createTableS w a rels).1.cacheAddTable ((createTableS w a rels).1.tbl t) = some w' := by
+  rw [createTable_eq] at h
+  split at h
+  · cases h
+  · rename_i h1
+    split at h
+    · cases h
+    · rename_i h2
+      split at h
+      · rename_i h3
+        refine ⟨by omega, ?_, h3, ?_⟩
+        · intro r hr
+          have : (rels.all fun r => ((w.arch a).colIdx r.comp).isSome) = true := by
+            cases hh : (rels.all fun r => ((w.arch a).colIdx r.comp).isSome)
+            · exact absurd hh h2
+            · rfl
+          exact List.all_eq_true.1 this r hr
+        · unfold ctFinish at h
+          split at h
+          · cases h
+          · rename_i w1 hc
+            injection h with h5 h6
+            subst h5; subst h6
+            exact ⟨rfl, hc⟩
+      · cases h
+
+/-- conversely, with all checks passing `createTable` is the storage part then the cache part -/
+theorem createTable_of_valid {a : Nat} {rels : List RelID} {w : World}
+    (h1 : (w.arch a).numRel ≤ rels.length)
+    (h2 : ∀ (r : RelID), r ∈ rels → ((w.arch a).colIdx r.comp).isSome = true)
+    (h3 : RelsValid w rels) : createTable a rels w = ctFinish (createTableS w a rels) := by
+  rw [createTable_eq, if_neg (by omega), if_neg, if_pos h3]
+  rw [Bool.not_eq_false]
+  exact List.all_eq_true.2 h2
+
+/-- `cache.addTable` changes only the cache -/
+theorem cacheAddTable_frame {w w' : World} {T : Table} (h : w.cacheAddTable T = some w') :
+    w'.archetypes = w.archetypes ∧ w'.tables = w.tables ∧ w'.kinds = w.kinds ∧
+      w'.entities = w.entities ∧ w'.pool = w.pool := by
+  unfold cacheAddTable at h
+  simp only at h
+  split at h
+  · cases h
+  · injection h with h; subst h; exact ⟨rfl, rfl, rfl, rfl, rfl⟩
+
+end World
+
+/-! ## archetype-level facts about `AddTable` / `GetFreeTable` beyond `ArchIndex` -/
+
+namespace Archetype
+
+theorem afoldl_keep {α β : Type} (f : Archetype → α → Archetype) (p : Archetype → β)
+    (hf : ∀ (a : Archetype) (x : α), p (f a x) = p a) :
+    ∀ (l : List α) (a : Archetype), p (l.foldl f a) = p a
+  | [], _ => rfl
+  | x :: l, a => by rw [List.foldl_cons, afoldl_keep f p hf l, hf]
+
+theorem addStep_id (tid : Nat) (targets : List Ent) (a : Archetype) (k : Nat) :
+    (addStep tid targets a k).id = a.id := by unfold addStep; split <;> rfl
+
+theorem addStep_mask (tid : Nat) (targets : List Ent) (a : Archetype) (k : Nat) :
+    (addStep tid targets a k).mask = a.mask := by unfold addStep; split <;> rfl
+
+theorem addStep_zst (tid : Nat) (targets : List Ent) (a : Archetype) (k : Nat) :
+    (addStep tid targets a k).zst = a.zst := by unfold addStep; split <;> rfl
+
+theorem addFold_sameShape (tid : Nat) (targets : List Ent) (a : Archetype) (n : Nat) :
+    SameShape a ((List.range n).foldl (addStep tid targets) a) := by
+  induction n with
+  | zero => exact SameShape.refl a
+  | succ n ih =>
+    rw [List.range_succ, List.foldl_append]
+    exact ih.trans (addStep_sameShape _ _ _ _)
+
+/-- `AddTable` = append to the table list, then edit only the two relation indices -/
+theorem addTable_sameShape (a : Archetype) (tid : Nat) (targets : List Ent) :
+    SameShape { a with tables := a.tables.append tid } (a.addTable tid targets) := by
+  rw [addTable_eq]
+  split
+  · exact SameShape.refl _
+  · exact addFold_sameShape _ _ _ _
+
+theorem addTable_id (a : Archetype) (tid : Nat) (targets : List Ent) :
+    (a.addTable tid targets).id = a.id := by
+  rw [addTable_eq]; split
+  · rfl
+  · exact afoldl_keep _ (·.id) (addStep_id tid targets) _ _
+
+theorem addTable_mask (a : Archetype) (tid : Nat) (targets : List Ent) :
+    (a.addTable tid targets).mask = a.mask := by
+  rw [addTable_eq]; split
+  · rfl
+  · exact afoldl_keep _ (·.mask) (addStep_mask tid targets) _ _
+
+theorem addTable_zst (a : Archetype) (tid : Nat) (targets : List Ent) :
+    (a.addTable tid targets).zst = a.zst := by
+  rw [addTable_eq]; split
+  · rfl
+  · exact afoldl_keep _ (·.zst) (addStep_zst tid targets) _ _
+
+theorem addTable_tables (a : Archetype) (tid : Nat) (targets : List Ent) :
+    (a.addTable tid targets).tables.tables = a.tables.tables ++ [tid] := by
+  rw [(addTable_sameShape a tid targets).tables]; rfl
+
+theorem addTable_freeTables (a : Archetype) (tid : Nat) (targets : List Ent) :
+    (a.addTable tid targets).freeTables = a.freeTables :=
+  (addTable_sameShape a tid targets).freeTables
+
+theorem addTable_comps (a : Archetype) (tid : Nat) (targets : List Ent) :
+    (a.addTable tid targets).comps = a.comps := (addTable_sameShape a tid targets).comps
+
+theorem addTable_isRel (a : Archetype) (tid : Nat) (targets : List Ent) :
+    (a.addTable tid targets).isRel = a.isRel := (addTable_sameShape a tid targets).isRel
+
+theorem addTable_numRel (a : Archetype) (tid : Nat) (targets : List Ent) :
+    (a.addTable tid targets).numRel = a.numRel := (addTable_sameShape a tid targets).numRel
+
+/-- `AddTable` of a table that is neither active nor free keeps the structural part -/
+theorem Struct.addTable {a : Archetype} (h : Struct a) (tid : Nat) (targets : List Ent)
+    (hact : tid ∉ a.tables.tables) (hfree : tid ∉ a.freeTables) :
+    Struct (a.addTable tid targets) := by
+  have hs0 : Struct { a with tables := a.tables.append tid } := by
+    refine ⟨h.tablesWF.append hact, h.freeNodup, ?_, h.lenRel, h.lenIsRel, h.numRelEq⟩
+    intro t ht
+    rw [show ({ a with tables := a.tables.append tid } : Archetype).tables.tables
+        = a.tables.tables ++ [tid] from rfl] at ht
+    rcases List.mem_append.1 ht with h1 | h1
+    · exact h.disjoint t h1
+    · rw [List.mem_singleton.1 h1]; exact hfree
+  exact hs0.of_sameShape (addTable_sameShape a tid targets)
+
+/-- `GetFreeTable` at the structural level -/
+theorem Struct.getFreeTable {a a' : Archetype} {t : Nat} (h : Struct a)
+    (hg : a.getFreeTable = some (a', t)) :
+    Struct a' ∧ a.freeTables = a'.freeTables ++ [t] ∧ a'.tables = a.tables ∧
+      t ∉ a'.freeTables ∧ t ∉ a'.tables.tables ∧ a'.id = a.id ∧ a'.mask = a.mask ∧
+      a'.comps = a.comps ∧ a'.isRel = a.isRel ∧ a'.zst = a.zst ∧ a'.numRel = a.numRel := by
+  unfold Archetype.getFreeTable at hg
+  cases hl : a.freeTables.getLast? with
+  | none => rw [hl] at hg; cases hg
+  | some x =>
+    rw [hl] at hg
+    injection hg with hg
+    injection hg with ha ht
+    subst ht
+    subst ha
+    have hsplit : a.freeTables = a.freeTables.dropLast ++ [x] :=
+      eq_dropLast_append_of_getLast? _ x hl
+    have hnd := h.freeNodup
+    rw [hsplit] at hnd
+    have hnd' := List.nodup_append.1 hnd
+    have hxfree : x ∈ a.freeTables := by rw [hsplit]; simp
+    refine ⟨?_, hsplit, rfl, ?_, ?_, rfl, rfl, rfl, rfl, rfl, rfl⟩
+    · refine ⟨h.tablesWF, hnd'.1, ?_, h.lenRel, h.lenIsRel, h.numRelEq⟩
+      intro t ht hm
+      exact h.disjoint t ht (by rw [hsplit]; exact List.mem_append_left _ hm)
+    · intro hm
+      exact hnd'.2.2 x hm x (List.mem_singleton.2 rfl) rfl
+    · intro hm
+      exact h.disjoint x hm hxfree
+
+theorem getFreeTable_none {a : Archetype} (h : a.getFreeTable = none) : a.freeTables = [] := by
+  unfold Archetype.getFreeTable at h
+  cases hl : a.freeTables.getLast? with
+  | none => exact List.getLast?_eq_none_iff.1 hl
+  | some x => rw [hl] at h; cases h
+
+theorem getFreeTable_of_nil {a : Archetype} (h : a.freeTables = []) : a.getFreeTable = none := by
+  unfold Archetype.getFreeTable; rw [h]; rfl
+
+/-- a column index is a position of the component list -/
+theorem colIdx_get {a : Archetype} {c : Comp} {i : Nat} (h : a.colIdx c = some i) :
+    a.comps[i]? = some c := by
+  unfold colIdx at h
+  simp only at h
+  split at h
+  · rename_i hlt
+    injection h with h; subst h
+    rw [List.getElem?_eq_getElem hlt]
+    congr 1
+    exact List.getElem_idxOf hlt
+  · cases h
+
+end Archetype
+
+/-! ## the abstract effect of `createTable` on archetypes and tables -/
+
+/-- `w'` arises from `w` by putting table `Tn` into slot `tid` (a new slot at the end, or the
+    slot of a free table of `a`) and replacing archetype `a` (`A`) by `A2`, which lists `tid` as
+    active and no longer as free. -/
+structure TableAdded (w w' : World) (a tid : Nat) (A A2 : Archetype) (Tn : Table) : Prop where
+  hA : w.archetypes[a]? = some A
+  archs : w'.archetypes = w.archetypes.set a A2
+  tabs : ∀ (t : Nat), w'.tables[t]? = if t = tid then some Tn else w.tables[t]?
+  kinds : w'.kinds = w.kinds
+  id : A2.id = A.id
+  mask : A2.mask = A.mask
+  comps : A2.comps = A.comps
+  isRel : A2.isRel = A.isRel
+  zst : A2.zst = A.zst
+  numRel : A2.numRel = A.numRel
+  struct : A2.Struct
+  tabsEq : A2.tables.tables = A.tables.tables ++ [tid]
+  memT : ∀ (t : Nat), t ∈ A2.tables.tables ↔ t ∈ A.tables.tables ∨ t = tid
+  memF : ∀ (t : Nat), t ∈ A2.freeTables ↔ t ∈ A.freeTables ∧ t ≠ tid
+  tArch : Tn.arch = a
+  tIds : Tn.ids = A.comps
+  tIsRel : Tn.isRel = A.isRel
+  tZst : Tn.zst = A.zst
+  tId : Tn.id = tid
+  tFree : Tn.isFree = false
+  tRel : ∀ (r : RelID), r ∈ Tn.relIDs → ∃ (i : Nat), Tn.ids[i]? = some r.comp ∧ Tn.isRel.getD i false = true
+  oldArch : ∀ (T : Table), w.tables[tid]? = some T → T.arch = a
+  others : ∀ (b : Nat) (B : Archetype), b ≠ a → w.archetypes[b]? = some B →
+    tid ∉ B.tables.tables ∧ tid ∉ B.freeTables
+  nonRel : A2.hasRelations = false → A2.tables.tables.length = 1 ∧ A2.freeTables = []
+
+namespace TableAdded
+
+variable {w w' : World} {a tid : Nat} {A A2 : Archetype} {Tn : Table}
+
+theorem aget (ta : TableAdded w w' a tid A A2 Tn) {b : Nat} {B : Archetype}
+    (h : w'.archetypes[b]? = some B) :
+    (b = a ∧ B = A2) ∨ (b ≠ a ∧ w.archetypes[b]? = some B) := by
+  rw [ta.archs, List.getElem?_set] at h
+  by_cases hb : a = b
+  · subst hb
+    rw [if_pos rfl, if_pos (alt_of_get ta.hA)] at h
+    exact Or.inl ⟨rfl, (Option.some.inj h).symm⟩
+  · rw [if_neg hb] at h
+    exact Or.inr ⟨fun e => hb e.symm, h⟩
+
+theorem aget_self (ta : TableAdded w w' a tid A A2 Tn) : w'.archetypes[a]? = some A2 := by
+  rw [ta.archs, List.getElem?_set_self (alt_of_get ta.hA)]
+
+theorem aget_ne (ta : TableAdded w w' a tid A A2 Tn) {b : Nat} (hb : b ≠ a) :
+    w'.archetypes[b]? = w.archetypes[b]? := by
+  rw [ta.archs, List.getElem?_set_ne (fun e => hb e.symm)]
+
+theorem arch_self (ta : TableAdded w w' a tid A A2 Tn) : w'.arch a = A2 := arch_of_get ta.aget_self
+
+theorem arch_ne (ta : TableAdded w w' a tid A A2 Tn) {b : Nat} (hb : b ≠ a) : w'.arch b = w.arch b := by
+  simp only [arch, List.getD_eq_getElem?_getD, ta.aget_ne hb]
+
+theorem tget (ta : TableAdded w w' a tid A A2 Tn) {t : Nat} {T : Table}
+    (h : w'.tables[t]? = some T) : (t = tid ∧ T = Tn) ∨ (t ≠ tid ∧ w.tables[t]? = some T) := by
+  rw [ta.tabs] at h
+  by_cases ht : t = tid
+  · rw [if_pos ht] at h; exact Or.inl ⟨ht, (Option.some.inj h).symm⟩
+  · rw [if_neg ht] at h; exact Or.inr ⟨ht, h⟩
+
+theorem tget_self (ta : TableAdded w w' a tid A A2 Tn) : w'.tables[tid]? = some Tn := by
+  rw [ta.tabs, if_pos rfl]
+
+theorem tget_ne (ta : TableAdded w w' a tid A A2 Tn) {t : Nat} (ht : t ≠ tid) :
+    w'.tables[t]? = w.tables[t]? := by rw [ta.tabs, if_neg ht]
+
+theorem hasRelations (ta : TableAdded w w' a tid A A2 Tn) : A2.hasRelations = A.hasRelations := by
+  simp only [Archetype.hasRelations, ta.numRel]
+
+end TableAdded
+
+/-- adding / recycling a table keeps `SInvMid`, settles the archetype, keeps the others settled -/
+theorem SInvMid.tableAdded {w w' : World} {a tid : Nat} {A A2 : Archetype} {Tn : Table}
+    (h : SInvMid w) (ta : TableAdded w w' a tid A A2 Tn) :
+    SInvMid w' ∧ SettledAt w' a ∧ ∀ (b : Nat), b ≠ a → SettledAt w b → SettledAt w' b := by
+  refine ⟨⟨?_, ?_, ?_, ?_, ?_, ?_, ?_, ?_, ?_, ?_, ?_, ?_⟩, ?_, ?_⟩
+  · intro b B hB
+    rcases ta.aget hB with ⟨rfl, rfl⟩ | ⟨_, h1⟩
+    · rw [ta.id]; exact h.archId _ A ta.hA
+    · exact h.archId b B h1
+  · intro b c B C hB hC hm
+    rcases ta.aget hB with ⟨rfl, rfl⟩ | ⟨_, h1⟩
+    · rcases ta.aget hC with ⟨rfl, rfl⟩ | ⟨_, h2⟩
+      · rfl
+      · exact h.maskUniq _ c A C ta.hA h2 (ta.mask ▸ hm)
+    · rcases ta.aget hC with ⟨rfl, rfl⟩ | ⟨_, h2⟩
+      · exact h.maskUniq b _ B A h1 ta.hA (by rw [hm, ta.mask])
+      · exact h.maskUniq b c B C h1 h2 hm
+  · intro b B hB c hc; rw [ta.kinds]
+    rcases ta.aget hB with ⟨rfl, rfl⟩ | ⟨_, h1⟩
+    · rw [ta.mask] at hc; exact h.maskReg _ A ta.hA c hc
+    · exact h.maskReg b B h1 c hc
+  · intro b B hB; rw [ta.kinds]
+    rcases ta.aget hB with ⟨rfl, rfl⟩ | ⟨_, h1⟩
+    · rw [ta.comps, ta.mask, ta.isRel, ta.zst]; exact h.comps _ A ta.hA
+    · exact h.comps b B h1
+  · intro b B i c hB hc; rw [ta.kinds]
+    rcases ta.aget hB with ⟨rfl, rfl⟩ | ⟨_, h1⟩
+    · rw [ta.comps] at hc; rw [ta.isRel, ta.zst]; exact h.kindsOf _ A i c ta.hA hc
+    · exact h.kindsOf b B i c h1 hc
+  · intro t T hT
+    rcases ta.tget hT with ⟨rfl, rfl⟩ | ⟨_, h1⟩
+    · refine ⟨A2, by rw [ta.tArch]; exact ta.aget_self, ?_, ?_, ?_, ta.tId⟩
+      · rw [ta.tIds, ta.comps]
+      · rw [ta.tIsRel, ta.isRel]
+      · rw [ta.tZst, ta.zst]
+    · obtain ⟨B, hB, e1, e2, e3, e4⟩ := h.tblArch t T h1
+      by_cases hb : T.arch = a
+      · have : B = A := by rw [hb, ta.hA] at hB; exact (Option.some.inj hB).symm
+        subst this
+        refine ⟨A2, by rw [hb]; exact ta.aget_self, ?_, ?_, ?_, e4⟩
+        · rw [e1, ta.comps]
+        · rw [e2, ta.isRel]
+        · rw [e3, ta.zst]
+      · exact ⟨B, by rw [ta.aget_ne hb]; exact hB, e1, e2, e3, e4⟩
+  · intro t T hT
+    rcases ta.tget hT with ⟨rfl, rfl⟩ | ⟨_, h1⟩
+    · exact ta.tRel
+    · exact h.relCols t T h1
+  · intro t T hT
+    rcases ta.tget hT with ⟨rfl, rfl⟩ | ⟨hne, h1⟩
+    · rw [ta.tArch, ta.arch_self, ta.tFree, ta.memT, ta.memF]
+      simp
+    · have hm := h.member t T h1
+      by_cases hb : T.arch = a
+      · rw [hb, arch_of_get ta.hA] at hm
+        rw [hb, ta.arch_self, ta.memT, ta.memF]
+        simp only [hne, or_false, ne_eq, not_false_eq_true, and_true]
+        exact hm
+      · rw [ta.arch_ne hb]; exact hm
+  · intro b B t hB hmem
+    rcases ta.aget hB with ⟨rfl, rfl⟩ | ⟨hb, h1⟩
+    · by_cases ht : t = tid
+      · subst ht; exact ⟨Tn, ta.tget_self, ta.tArch⟩
+      · rw [ta.memT, ta.memF] at hmem
+        have hmem' : t ∈ A.tables.tables ∨ t ∈ A.freeTables := by
+          rcases hmem with (h2 | h2) | h2
+          · exact Or.inl h2
+          · exact absurd h2 ht
+          · exact Or.inr h2.1
+        obtain ⟨T, hT, hTa⟩ := h.owned _ A t ta.hA hmem'
+        exact ⟨T, by rw [ta.tget_ne ht]; exact hT, hTa⟩
+    · have ht : t ≠ tid := by
+        rintro rfl
+        have := ta.others b B hb h1
+        rcases hmem with h2 | h2
+        · exact this.1 h2
+        · exact this.2 h2
+      obtain ⟨T, hT, hTa⟩ := h.owned b B t h1 hmem
+      exact ⟨T, by rw [ta.tget_ne ht]; exact hT, hTa⟩
+  · intro b B hB
+    rcases ta.aget hB with ⟨rfl, rfl⟩ | ⟨_, h1⟩
+    · exact ta.struct
+    · exact h.astruct b B h1
+  · intro b B hB hr
+    rcases ta.aget hB with ⟨rfl, rfl⟩ | ⟨_, h1⟩
+    · obtain ⟨h2, h3⟩ := ta.nonRel hr
+      exact ⟨by omega, h3⟩
+    · exact h.nonRelLe b B h1 hr
+  · obtain ⟨h0, h1, h2⟩ := h.root
+    have hT0 := get_of_lt h0
+    refine ⟨?_, ?_, ?_⟩
+    · by_cases ht : (0 : Nat) = tid
+      · exact lt_of_get (ht ▸ ta.tget_self)
+      · exact lt_of_get (by rw [ta.tget_ne ht]; exact hT0)
+    · by_cases ht : (0 : Nat) = tid
+      · subst ht
+        rw [tbl_of_get ta.tget_self, ta.tArch, ← ta.oldArch _ hT0]; exact h1
+      · rw [tbl_of_get (by rw [ta.tget_ne ht]; exact hT0)]; exact h1
+    · by_cases hb : (0 : Nat) = a
+      · subst hb
+        rw [ta.arch_self, ta.mask]
+        rw [arch_of_get ta.hA] at h2; exact h2
+      · rw [ta.arch_ne hb]; exact h2
+  · intro B hB hr
+    rw [ta.aget_self] at hB
+    have : B = A2 := (Option.some.inj hB).symm
+    subst this
+    exact (ta.nonRel hr).1
+  · intro b hb hs B hB hr
+    rw [ta.aget_ne hb] at hB
+    exact hs B hB hr
+
+theorem TableAdded.congr {w W w' : World} {a tid : Nat} {A A2 : Archetype} {Tn : Table}
+    (ta : TableAdded w W a tid A A2 Tn) (ha : w'.archetypes = W.archetypes)
+    (ht : w'.tables = W.tables) (hk : w'.kinds = W.kinds) : TableAdded w w' a tid A A2 Tn :=
+  { ta with archs := ha.trans ta.archs, tabs := by intro t; rw [ht]; exact ta.tabs t,
+            kinds := hk.trans ta.kinds }
+
+theorem getElem?_concat_eq {α : Type} (l : List α) (x : α) (t : Nat) :
+    (l ++ [x])[t]? = if t = l.length then some x else l[t]? := by
+  by_cases h : t = l.length
+  · subst h; rw [if_pos rfl]; exact List.getElem?_concat_length
+  · rw [if_neg h]
+    rcases Nat.lt_or_ge t l.length with h1 | h1
+    · exact List.getElem?_append_left h1
+    · rw [List.getElem?_eq_none h1, List.getElem?_eq_none]
+      simp only [List.length_append, List.length_singleton]; omega
+
+theorem getElem?_set_eq {α : Type} (l : List α) (x : α) (i t : Nat) (hi : i < l.length) :
+    (l.set i x)[t]? = if t = i then some x else l[t]? := by
+  by_cases h : t = i
+  · subst h; rw [if_pos rfl]; exact List.getElem?_set_self hi
+  · rw [if_neg h]; exact List.getElem?_set_ne (fun e => h e.symm)
+
+/-- the relations handed to `createTable` name relation columns of the archetype -/
+theorem SInvMid.rels_cols {w : World} (h : SInvMid w) {a : Nat} {A : Archetype}
+    (hA : w.archetypes[a]? = some A) {rels : List RelID}
+    (hcol : ∀ (r : RelID), r ∈ rels → (A.colIdx r.comp).isSome = true) (hval : RelsValid w rels) :
+    ∀ (r : RelID), r ∈ rels → ∃ (i : Nat), A.comps[i]? = some r.comp ∧ A.isRel.getD i false = true := by
+  intro r hr
+  cases hc : A.colIdx r.comp with
+  | none => have := hcol r hr; rw [hc] at this; cases this
+  | some i =>
+    have hg := Archetype.colIdx_get hc
+    refine ⟨i, hg, ?_⟩
+    rw [(h.kindsOf a A i r.comp hA hg).1]
+    exact (hval r hr).1
+
+/-- **the storage part of `createTable`** in the abstract form: a fresh table at the end when
+    the archetype has no free table, otherwise the last free table recycled. -/
+theorem SInvMid.createTableS_added {w : World} (h : SInvMid w) {a : Nat} {A : Archetype}
+    (hA : w.archetypes[a]? = some A) {rels : List RelID}
+    (hcol : ∀ (r : RelID), r ∈ rels → (A.colIdx r.comp).isSome = true) (hval : RelsValid w rels)
+    (hnr : A.hasRelations = false → A.tables.tables = []) :
+    ∃ (A2 : Archetype) (Tn : Table),
+      TableAdded w (createTableS w a rels).1 a (createTableS w a rels).2 A A2 Tn ∧
+      Tn.relIDs = rels ∧ Tn.targets = ctTargets A rels ∧
+      ((A.freeTables = [] ∧ (createTableS w a rels).2 = w.tables.length ∧
+          Tn = Table.new w.tables.length a A.comps A.isRel A.zst
+            (if A.hasRelations then w.initCapRel else w.initCap) (ctTargets A rels) rels) ∨
+       ((createTableS w a rels).2 < w.tables.length ∧ (createTableS w a rels).2 ∈ A.freeTables ∧
+          Tn = (w.tbl (createTableS w a rels).2).recycle (ctTargets A rels) rels)) ∧
+      (createTableS w a rels).1.entities = w.entities ∧ (createTableS w a rels).1.pool = w.pool ∧
+      (createTableS w a rels).1.cache = w.cache := by
+  have hAe : w.arch a = A := arch_of_get hA
+  have halt := alt_of_get hA
+  have hS := h.astruct a A hA
+  cases hf : A.getFreeTable with
+  | none =>
+    have hfree : A.freeTables = [] := Archetype.getFreeTable_none hf
+    rw [createTableS_none (by rw [hAe]; exact hf), hAe]
+    have hnew : ∀ (b : Nat) (B : Archetype), w.archetypes[b]? = some B →
+        w.tables.length ∉ B.tables.tables ∧ w.tables.length ∉ B.freeTables := by
+      intro b B hB
+      constructor
+      · intro hm
+        obtain ⟨T, hT, _⟩ := h.owned b B _ hB (Or.inl hm)
+        exact absurd (lt_of_get hT) (Nat.lt_irrefl _)
+      · intro hm
+        obtain ⟨T, hT, _⟩ := h.owned b B _ hB (Or.inr hm)
+        exact absurd (lt_of_get hT) (Nat.lt_irrefl _)
+    refine ⟨A.addTable w.tables.length (ctTargets A rels), _, ?_, rfl, rfl,
+      Or.inl ⟨hfree, rfl, rfl⟩, rfl, rfl, rfl⟩
+    refine { hA := hA, archs := ?_, tabs := ?_, kinds := rfl,
+             id := Archetype.addTable_id .., mask := Archetype.addTable_mask ..,
+             comps := Archetype.addTable_comps .., isRel := Archetype.addTable_isRel ..,
+             zst := Archetype.addTable_zst .., numRel := Archetype.addTable_numRel ..,
+             struct := hS.addTable _ _ (hnew a A hA).1 (hnew a A hA).2,
+             tabsEq := Archetype.addTable_tables ..,
+             memT := ?_, memF := ?_, tArch := rfl, tIds := rfl, tIsRel := rfl, tZst := rfl,
+             tId := rfl, tFree := rfl, tRel := h.rels_cols hA hcol hval, oldArch := ?_,
+             others := fun b B _ hB => hnew b B hB, nonRel := ?_ }
+    · show w.archetypes.set a ((w.arch a).addTable _ _) = _
+      rw [hAe]
+    · intro t; exact getElem?_concat_eq _ _ t
+    · intro t; rw [Archetype.addTable_tables]; simp
+    · intro t; rw [Archetype.addTable_freeTables, hfree]; simp
+    · intro T hT; rw [List.getElem?_eq_none (Nat.le_refl _)] at hT; cases hT
+    · intro hr
+      have hr' : A.hasRelations = false := by
+        simpa only [Archetype.hasRelations, Archetype.addTable_numRel] using hr
+      rw [Archetype.addTable_tables, hnr hr', Archetype.addTable_freeTables]
+      exact ⟨rfl, hfree⟩
+  | some p =>
+    obtain ⟨A', t⟩ := p
+    rw [createTableS_some (by rw [hAe]; exact hf), hAe]
+    obtain ⟨hS', hsplit, htabs, hnf, hnt, e1, e2, e3, e4, e5, e6⟩ := hS.getFreeTable hf
+    have htfree : t ∈ A.freeTables := by rw [hsplit]; simp
+    obtain ⟨T, hT, hTa⟩ := h.owned a A t hA (Or.inr htfree)
+    have htlt := lt_of_get hT
+    have hTe : w.tbl t = T := tbl_of_get hT
+    obtain ⟨A0, hA0, i1, i2, i3, i4⟩ := h.tblArch t T hT
+    have : A0 = A := by rw [hTa, hA] at hA0; exact (Option.some.inj hA0).symm
+    subst this
+    refine ⟨A'.addTable t (ctTargets A0 rels), (w.tbl t).recycle (ctTargets A0 rels) rels, ?_, rfl, rfl,
+      Or.inr ⟨htlt, htfree, rfl⟩, rfl, rfl, rfl⟩
+    refine { hA := hA, archs := ?_, tabs := ?_, kinds := rfl,
+             id := (Archetype.addTable_id ..).trans e1, mask := (Archetype.addTable_mask ..).trans e2,
+             comps := (Archetype.addTable_comps ..).trans e3,
+             isRel := (Archetype.addTable_isRel ..).trans e4,
+             zst := (Archetype.addTable_zst ..).trans e5,
+             numRel := (Archetype.addTable_numRel ..).trans e6,
+             struct := hS'.addTable _ _ hnt hnf,
+             tabsEq := by rw [Archetype.addTable_tables, htabs],
+             memT := ?_, memF := ?_, tArch := by rw [hTe]; exact hTa,
+             tIds := by rw [hTe]; exact i1, tIsRel := by rw [hTe]; exact i2,
+             tZst := by rw [hTe]; exact i3, tId := by rw [hTe]; exact i4, tFree := rfl,
+             tRel := ?_, oldArch := ?_, others := ?_, nonRel := ?_ }
+    · show (w.archetypes.set a A').set a ((((w.setArch a A').modTbl t _).arch a).addTable _ _) = _
+      have : ((w.setArch a A').modTbl t fun T => T.recycle (ctTargets A0 rels) rels).arch a = A' := by
+        show (w.archetypes.set a A').getD a default = A'
+        simp [List.getD_eq_getElem?_getD, List.getElem?_set_self halt]
+      rw [this, List.set_set]
+    · intro t'
+      show (w.tables.set t _)[t']? = _
+      exact getElem?_set_eq _ _ t t' htlt
+    · intro x; rw [Archetype.addTable_tables, htabs]; simp
+    · intro x
+      show x ∈ (A'.addTable t (ctTargets A0 rels)).freeTables ↔ x ∈ A0.freeTables ∧ x ≠ t
+      rw [Archetype.addTable_freeTables, hsplit]
+      constructor
+      · intro hx; exact ⟨List.mem_append_left _ hx, fun e => hnf (e ▸ hx)⟩
+      · rintro ⟨hx, hne⟩
+        rcases List.mem_append.1 hx with h1 | h1
+        · exact h1
+        · exact absurd (List.mem_singleton.1 h1) hne
+    · intro r hr
+      obtain ⟨i, h1, h2⟩ := h.rels_cols hA hcol hval r hr
+      refine ⟨i, ?_, ?_⟩
+      · show (w.tbl t).ids[i]? = _
+        rw [hTe, i1]; exact h1
+      · show (w.tbl t).isRel.getD i false = true
+        rw [hTe, i2]; exact h2
+    · intro T' hT'; rw [hT] at hT'; rw [← Option.some.inj hT']; exact hTa
+    · intro b B hb hB
+      constructor
+      · intro hm
+        obtain ⟨T', hT', hTb⟩ := h.owned b B t hB (Or.inl hm)
+        rw [hT] at hT'; rw [← Option.some.inj hT'] at hTb
+        exact hb (hTb.symm.trans hTa)
+      · intro hm
+        obtain ⟨T', hT', hTb⟩ := h.owned b B t hB (Or.inr hm)
+        rw [hT] at hT'; rw [← Option.some.inj hT'] at hTb
+        exact hb (hTb.symm.trans hTa)
+    · intro hr
+      have hr' : A0.hasRelations = false := by
+        simpa only [Archetype.hasRelations, Archetype.addTable_numRel, e6] using hr
+      have := (h.nonRelLe a A0 hA hr').2
+      rw [hsplit] at this
+      simp at this
+
 end Ark
